@@ -7,7 +7,7 @@ from typing import Dict, List, Optional
 from .. import terms as tm
 from ..effects import Summaries, roots
 from ..interp import Event, Interp, Result
-from ..lib import arg_of, fmt, is_call_to, sweep
+from ..lib import arg_of, fmt, is_call_to, keyed_writes, sweep
 from ..terms import T, const
 
 EXPLANATION = """
@@ -59,7 +59,7 @@ MANIFEST = dict(
               "matrix-kind dataflow; mutation summaries",
 )
 FLOORS = {"C15.1": 8, "C15.2": 10, "C15.3": 10, "C15.4": 3, "C15.5": 1,
-          "C15.6": 4, "C15.8": 12, "C15.9": 10}
+          "C15.6": 4, "C15.8": 12, "C15.9": 10, "C15.10": 6}
 
 RUN = "evo.main_traj.run"
 TP = "evo.core.trajectory.PosePath3D."
@@ -428,6 +428,7 @@ def check(ctx):
            "load_transform validates with is_sim3 (kind: SE(3) or Sim(3))",
            key="C15.5:kind-source", nontrivial=False)
 
+    ctx.section(_loading, ctx)
     ctx.section(_merge_step, ctx)
     ctx.section(_step_semantics, ctx)
     ctx.section(_subjects, ctx, f, res, step_events, ref_traj)
@@ -459,6 +460,69 @@ def check(ctx):
                + ("runs before processing finished" if not ok else
                   f"file stem {fmt(dest)} does not belong to the written "
                   f"trajectory {fmt(traj)}"), key="C15.6:export")
+
+
+def _loading(ctx):
+    """C15.10: 'the trajectories it exports equal the inputs ...' starts with
+    loading: every given file (except the one named as --ref) is read with
+    the reader of the sub-command's format and kept under its own name; the
+    reference is read from --ref with the same reader."""
+    prog = ctx.prog
+    f = prog.func("evo.main_traj.load_trajectories")
+    ctx.analysed_fn(f.qualname)
+    A = _args_attr
+    FI_ = "evo.tools.file_interface."
+    table = {"tum": ("traj_files", FI_ + "read_tum_trajectory_file"),
+             "kitti": ("pose_files", FI_ + "read_kitti_poses_file"),
+             "euroc": ("state_gt_csv", FI_ + "read_euroc_csv_trajectory")}
+    for sc, (files, reader) in table.items():
+        r = Interp(prog).run(f, {}, None, preset_attrs={
+            (tm.param("args"), "subcommand"): const(sc)})
+        ret = r.ret
+        if ret.op != "tuple" or len(ret.args) != 2:
+            ctx.undecidable("C15.10", f, f"load[{sc}]: return is not "
+                            f"(trajectories, reference): {fmt(ret)[:80]}")
+            continue
+        trajs, ref = ret.args
+        # reference
+        okr = ref.op == "ite" and ref.args[0] is A("ref") and \
+            is_call_to(ref.args[1], reader) and ref.args[1].args[1] and \
+            ref.args[1].args[1][0] is A("ref") and \
+            tm.is_const(ref.args[2], None)
+        ctx.ob("C15.10", f, bool(okr),
+               f"load[{sc}]: the reference is {reader.rsplit('.', 1)[1]}"
+               f"(args.ref) iff --ref is given" if okr else
+               f"load[{sc}]: reference is {fmt(ref)[:100]}",
+               key=f"C15.10:{sc}:reference")
+        # trajectories: stores keyed by the file, read by the format reader,
+        # skipped exactly for the reference file
+        stores = [(k, v, g, e) for k, v, g, e in keyed_writes(r)
+                  if k is not None and is_call_to(v, *[x[1] for x in
+                                                      table.values()])]
+        ok = len(stores) == 1
+        why = f"{len(stores)} stores"
+        if ok:
+            k, v, g, e = stores[0]
+            el_ok = k.op == "elem" and k.args[0] is A(files)
+            rd_ok = is_call_to(v, reader) and v.args[1] and v.args[1][0] is k
+            skip = [a for a in tm.atoms(g) if a.op == "cmp" and
+                    a.args[0] in ("Eq", "NotEq") and
+                    {a.args[1], a.args[2]} == {k, A("ref")}]
+            sk_ok = len(skip) == 1 and tm.fold(
+                g, lambda t: (skip[0].args[0] == "Eq") if t is skip[0]
+                else None) is False and tm.fold(
+                g, lambda t: (skip[0].args[0] != "Eq") if t is skip[0]
+                else (True if t.op == "iter" else None)) is not False
+            ok = el_ok and rd_ok and sk_ok
+            why = (f"key {fmt(k)[:40]}, value {fmt(v)[:60]}, guard "
+                   f"{fmt(g)[:60]}")
+        ctx.ob("C15.10", f, bool(ok),
+               f"load[{sc}]: every file of args.{files} except --ref is "
+               f"read with {reader.rsplit('.', 1)[1]} and kept under its "
+               f"own name" if ok else
+               f"load[{sc}]: trajectories are not {{file: "
+               f"{reader.rsplit('.', 1)[1]}(file)}} for every given file "
+               f"but the reference: {why}", key=f"C15.10:{sc}:trajectories")
 
 
 def _may_iterate(t: T, obj: T) -> bool:
